@@ -196,7 +196,7 @@ def unschedulable_classes(case, c):
     if sched.effective_cycle(case['tasks'], case['links']):
         out.append('cycle-through-hierarchy')
     for e in case.get('externals') or []:
-        if e['start'] is None or e['end'] is None:
+        if e['succ'] and (e['start'] is None or e['end'] is None):
             out.append('external-predecessor-without-dates')
             break
     if case['dir'] == 'fwd':
@@ -236,7 +236,16 @@ def judge(prop, case, acc):
     before = sched.wbs_snapshot(b.wbs, b.externals)
     in_ids = {id(t) for t in b.wbs.tasks}
     clock0 = Clock.calls
-    schd, res, outcome, exc = run_calc(case, b)
+    schd = None
+    if case.get('warm'):
+        # the judged calc is the second one on the same scheduler object and the same resource objects (users re-run
+        # calc after editing a plan); on correct code it equals a cold run, so every oracle applies unchanged
+        schd, _r0, o0, _e0 = run_calc(case, b)
+        acc.count('warm_runs')
+        b.shared['events'].clear()
+        b.shared['queries'] = 0
+        before = sched.wbs_snapshot(b.wbs, b.externals)
+    schd, res, outcome, exc = run_calc(case, b, schd)
     after = sched.wbs_snapshot(b.wbs, b.externals)
     acc.count('calcs')
     acc.count('outcome:' + case['dir'] + ':' + outcome)
@@ -303,6 +312,15 @@ def judge(prop, case, acc):
     now = case['now']
     fwd = case['dir'] == 'fwd'
     bal = case['balance']
+    # rows that do not belong to this schedule (resource object not in Schedule.resources, or task object not in the
+    # returned WBS) are a C03 violation; the other oracles judge the schedule's own rows
+    own_ids = {id(t) for t in s.tasks}
+    foreign = [r for r in rows if all(r.resource is not x for x in res.resources) or id(r.task) not in own_ids]
+    if foreign:
+        r0 = foreign[0]
+        viol('C03', 'row-not-of-this-schedule', f'{len(foreign)} of {len(rows)} usage rows belong to another calculation (e.g. {getattr(r0.resource, "name", None)!r} {r0.date} task {r0.task.id} units {r0.units})')
+        viol('C04', 'rows-of-tasks-outside-the-schedule', f'{len(foreign)} usage rows reserve work for tasks that are not in the returned WBS')
+        rows = [r for r in rows if r not in foreign]
     by_task = collections.defaultdict(list)
     for r in rows:
         by_task[r.task.id].append(r)
@@ -333,6 +351,19 @@ def judge(prop, case, acc):
                frozenset(q.id for q in t.successors)) for t in s.tasks]
     if st_in != st_out:
         viol('C06', 'result-structure-differs', f'ids/hierarchy/order/links differ: {_first_diff(st_in, st_out)}')
+    else:
+        # links that leave the WBS stay attached to the same outside objects
+        in_objs = {t.id: t for t in b.wbs.tasks}
+        member_in = {id(t) for t in b.wbs.tasks}
+        for rt_ in s.tasks:
+            o_ = in_objs.get(rt_.id)
+            if o_ is None:
+                continue
+            for kind_ in ('predecessors', 'successors'):
+                want_ = sorted(id(x) for x in getattr(o_, kind_) if id(x) not in member_in)
+                got_ = sorted(id(x) for x in getattr(rt_, kind_) if id(x) not in res_ids)
+                if want_ != got_:
+                    viol('C06', f'outside-{kind_}-differ', f'task {rt_.id}: links to tasks outside the WBS differ between input and result')
     for i, t in enumerate(spec):
         rt = T.get(i)
         if rt is None:
@@ -389,7 +420,9 @@ def judge(prop, case, acc):
         rt = T[i]
         leaf = not c.ch[i]
         if rt.start > rt.end and not dusty and (leaf or all(T[k].start <= T[k].end for k in c.ch[i])):
-            if leaf and fwd and spec[i]['start'] is not None and spec[i]['end'] is None and day(rt.start) == day(rt.end) and rt.start != day(rt.start):
+            if leaf and fwd and spec[i]['start'] is None and spec[i]['end'] is not None and rt.end == spec[i]['end']:
+                viol('C07', 'leaf-start-after-end/user-fixed-end-without-start', f'task {rt.id}: only the end {rt.end} was given; the computed start {rt.start} is later')
+            elif leaf and fwd and spec[i]['start'] is not None and spec[i]['end'] is None and day(rt.start) == day(rt.end) and rt.start != day(rt.start):
                 viol('C07', 'leaf-start-after-end/user-fixed-start-after-encoded-end', f'task {rt.id}: fixed start {rt.start} > computed end {rt.end}')
             else:
                 viol('C07', ('leaf' if leaf else 'summary') + '-start-after-end/' + case['dir'], f'task {rt.id}: start {rt.start} > end {rt.end}')
@@ -759,6 +792,21 @@ def judge(prop, case, acc):
                 if own_s or inh_s or partial:
                     acc.sig(min(len(own_s), 3), min(len(inh_s), 3), partial, min(len(nd_days), 10), i in early)
 
+    # C09 clauses that speak about every task, summaries included
+    if not fwd:
+        for i in range(c.n):
+            if c.ch[i]:
+                if prop == 'C09':
+                    acc.ev()
+                if T[i].end > case['date']:
+                    viol('C09', 'summary-ends-after-project-end', f'summary {T[i].id} ends {T[i].end}, project end {case["date"]}')
+        for s_, p_ in case['links']:
+            if c.ch[s_] or c.ch[p_]:
+                if prop == 'C09':
+                    acc.count('deps_checked')
+                if T[p_].end > T[s_].start:
+                    viol('C09', 'dependency-violated/summary', f'task {T[p_].id} ends {T[p_].end} after its successor {T[s_].id} starts {T[s_].start}')
+
     # summaries reserve nothing
     for i in range(c.n):
         if c.ch[i] and by_task.get(T[i].id):
@@ -1006,6 +1054,7 @@ def run_shard(prop, tier, seed, shard, nshards, budget, acc):
         else:
             direction = 'fwd' if prop in FWD_ONLY else 'bwd' if prop in BWD_ONLY else None
             case = sched.gen_case(rnd, direction, n_max=n_max)
+            case['warm'] = rnd.random() < 0.3
             if prop == 'C08' and rnd.random() < 0.7:
                 case['balance'] = True
             if prop == 'C09' and rnd.random() < 0.8:
@@ -1021,7 +1070,14 @@ def run_shard(prop, tier, seed, shard, nshards, budget, acc):
                     c2['now'] = now
                     configs.append(c2)
         for cs in configs:
-            judge(prop, cs, acc)
+            try:
+                judge(prop, cs, acc)
+            except Exception:
+                # an oracle that cannot digest a result must not hide the verdicts of the other cases
+                import traceback
+                acc.count('oracle_exceptions')
+                if acc.counters['oracle_exceptions'] <= 2:
+                    acc.inconclusive.append('oracle raised on a case: ' + traceback.format_exc()[-700:])
         if idx <= 2:
             acc.sample(_brief(case))
 
